@@ -211,7 +211,17 @@ class Ctx:
                 start += 1
         return results
 
-    def run_model(self, level, script, profile="debug", timeout=600):
+    STATELESS_LEVELS = ("codec",)      # every op is evaluated on its own: a big script may be cut anywhere
+
+    def run_model(self, level, script, profile="debug", timeout=600, _shard=True):
+        if _shard and level in self.STATELESS_LEVELS and len(script) > 400000:
+            from concurrent.futures import ThreadPoolExecutor
+            n = 14
+            step = (len(script) + n - 1) // n
+            parts = [script[i:i + step] for i in range(0, len(script), step)]
+            with ThreadPoolExecutor(max_workers=n) as ex:
+                outs = list(ex.map(lambda part: self.run_model(level, part, profile, max(timeout, 1800), _shard=False), parts))
+            return [l for o in outs for l in o]
         chunk = "\n".join(script) + "\n"
         if os.environ.get("VERIF_DUMP_MODEL_SCRIPTS"):
             open(os.path.join(ROOT, ".cache", "model_script_%s_%d.txt" % (level, len(script))), "w").write(chunk)
